@@ -367,6 +367,13 @@ impl Real {
 			}
 		}
 
+		// x^0 == 1 for x != 0, whatever the pattern of x (0^0 stays an error)
+		if let Pattern::Simple(n) = &rhs.pattern {
+			if n == &0.into() && !self.is_zero() {
+				return Ok(Exact::new(1.into(), true));
+			}
+		}
+
 		// 1^x == 1
 		if let Pattern::Simple(n) = &self.pattern {
 			if n == &1.into() {
